@@ -475,6 +475,16 @@ def knob_value_cases(main, arg, depth=0):
         return knob_value_cases(main, defs[0][1], depth + 1)
     if s.k == 'ConditionalOperator':
         c = s.cond.strip_all()
+        # a bool local holding the test (`const bool given = requested != 0;`)
+        for _ in range(3):
+            cv_ = ex.var_of(c)
+            if cv_ is None:
+                break
+            cd_ = ex.assignments_to(main, cv_)
+            if len(cd_) == 1 and cd_[0][1] is not None and cd_[0][1].strip_all().k in ('BinaryOperator', 'UnaryOperator'):
+                c = cd_[0][1].strip_all()
+            else:
+                break
         # zero test of something that is the requested value in both cases
         pol = None     # True: condition holds iff value is zero
         tested = None
